@@ -12,6 +12,7 @@ import AgeModel.SpecConsts
 import Proofs.GoTiePlugName
 import Proofs.GoTieCli
 import Proofs.GoTieCtors
+import Proofs.GoTieExec
 namespace AgeModel
 namespace Tie.C17
 
@@ -119,6 +120,27 @@ theorem newIdentityWithoutData_tie {υ : Type} (nilυ ui : υ) (name : Bytes) :
       | .ok c => (⟨c.name, c.encoding, ui⟩, none)
       | .error _ => (⟨[], [], nilυ⟩, some ⟨"plugin.NewIdentityWithoutData", 0, []⟩)) :=
   GoTie.newIdentityWithoutData_tie nilυ ui name
+
+/-! Which program is started (`openClientConnection`, plugin/client.go), translated up to the
+`exec.Command` call: `age-plugin-NAME --age-plugin=PROTOCOL` for a name without '/', nothing at all
+otherwise — the model's `openClientCommand`. -/
+
+theorem exec_tie {κ χ : Type} (J : List Bytes → Go.M Bytes) (nilχ : χ) (Cmd : Bytes → List Bytes → Go.M χ)
+    (SP : χ → Go.M (κ × Option Go.Err)) (name proto : Bytes) :
+    Extracted.plugin_openClientConnection J nilχ Cmd SP name proto =
+      match Keys.openClientCommand ⟨name, []⟩ with
+      | .error _ => .ok (nilχ, some ⟨"plugin.openClientConnection", 0, []⟩)
+      | .ok path => (do
+          let cmd ← Cmd path [([45, 45, 97, 103, 101, 45, 112, 108, 117, 103, 105, 110, 61] : Bytes) ++ proto]
+          let t ← SP cmd
+          pure (cmd, t.2)) :=
+  GoTie.exec_tie J nilχ Cmd SP name proto
+
+theorem exec_refuses_separator_src {κ χ : Type} (J : List Bytes → Go.M Bytes) (nilχ : χ)
+    (SP : χ → Go.M (κ × Option Go.Err)) (name proto : Bytes) (h : name.contains (0x2f : UInt8) = true) :
+    Extracted.plugin_openClientConnection J nilχ (fun _ _ => .error (.panic 99)) SP name proto =
+      .ok (nilχ, some ⟨"plugin.openClientConnection", 0, []⟩) :=
+  GoTie.exec_refuses_separator J nilχ SP name proto h
 
 end Tie.C17
 end AgeModel
